@@ -98,4 +98,11 @@ def restrictKeys (kvs pathObj : List (String × Json)) : List (String × Json) :
 def pathIdent (o : Opts) (kvs pathObj : List (String × Json)) : UInt64 :=
   hashCode o (.obj (restrictKeys kvs pathObj))
 
+/-- `o.pathIdent(pathObject, absentIsNull = true, options)`: as `pathIdent`, and a key the object does not
+    have counts as null when the path object holds null for it (`newPathSetKeys` writes null for a set
+    key the member lacks) -/
+def pathIdentTol (o : Opts) (kvs pathObj : List (String × Json)) : UInt64 :=
+  hashCode o (.obj ((pathObj.filter (fun kv => (match kv.2 with | .null => true | _ => false) && (alookup kv.1 kvs).isNone)).foldl
+    (fun acc kv => ainsert kv.1 .null acc) (restrictKeys kvs pathObj)))
+
 end Jd
